@@ -312,6 +312,22 @@ def gen_item_C16(rng, idx, tier):
     thr = None
     if vals:
         thr = rng.choice(sorted(vals))
+    if idx % 8 == 3:
+        # decimal fractions in [1, 2) with a decimal min_delta (see gen: kind 'decimal'): only transformations that
+        # are exact on such floats (relabellings, powers of two)
+        from fractions import Fraction
+        case['k'] = [None if x is None else int(Fraction(float(1 + rng.randint(0, 9) / 10.0 + rng.choice([0, 0, 0.05]))) * 2 ** 60)
+                     for x in case['k']]
+        case['fb'] = 60
+        case['kind'] = 'decimal'
+        case['mind'] = int(Fraction(float(rng.choice([0.1, 0.2, 0.3, 0.05]))) * 2 ** 60) if rng.random() < 0.8 else 0
+        case['minv'] = rng.choice([[0, 1], [2 ** 60, 1]])
+        case['crits'] = [c for c in case['crits'] if c[0] in ('seeds', 'npixacc')]
+        case.pop('inf', None)
+        trs = [t for t in trs if t[0] in ('perm', 'flip', 'unit')] + \
+            [['pad', [[rng.randint(0, 2), rng.randint(0, 2)] for _ in range(nd)], None], ['affine', rng.choice([2, 4]), 0],
+             ['rescale', rng.choice([1, 3])]]
+        thr = None
     return {'case': case, 'trs': trs, 'thr': thr}
 
 
@@ -443,6 +459,7 @@ def eval_C17(item):
 def gen_item_C20(rng, idx, tier):
     case = gen.gen_compute_case(rng, maxpix=30)
     case['dtype'] = 'float64'
+    case['pstyle'] = 'py'      # equality looks at the recorded parameter values themselves
     kind = rng.choice(['same', 'params', 'crits', 'data', 'nanmask', 'loaded', 'loaded', 'pruned', 'pruned2', 'shape', 'minv', 'nondendro'])
     if kind == 'loaded' and rng.random() < 0.4:
         # integer data beyond 2**53 with an integer threshold: parameters that a float cannot hold
@@ -455,6 +472,20 @@ def gen_item_C20(rng, idx, tier):
         case['minv'] = rng.choice(['min', [2 ** 60 + rng.randint(0, 6), 1]])
         for key in ('inf',):
             case.pop(key, None)
+    elif kind == 'loaded' and rng.random() < 0.5:
+        # integer images of every width and signedness (FITS stores some of them with an offset)
+        dt = rng.choice(['uint8', 'uint16', 'uint32', 'int8', 'int16', 'int32'])
+        lo, hi = gen.INT_RANGE[dt]
+        span_ = min(hi - lo, 200)
+        base = rng.choice([lo, hi - span_, max(lo, -100)])
+        case['k'] = [base + (abs(x or 0) * 7) % (span_ + 1) for x in case['k']]
+        case['fb'] = 0
+        case['dtype'] = dt
+        case['kind'] = 'int-image'
+        case['crits'] = []
+        case['mind'] = case['mind'] % 50
+        case['minv'] = rng.choice(['min', [base + rng.randint(0, 20), 1]])
+        case.pop('inf', None)
     return {'case': case, 'kind': kind, 'r': rng.randrange(10 ** 6)}
 
 
@@ -593,7 +624,7 @@ def eval_C20(item):
             data = np.asarray(dd.data, dtype=float).ravel()
             ks = ','.join('nan' if np.isnan(x) else str(int(Fraction(float(x)) * (2 ** fb))) for x in data)
         return '%s@%s@%d/%d@%d@%d@%s' % (','.join(str(x) for x in np.asarray(dd.data).shape), ks or '-', f.numerator, f.denominator,
-                                        impl.to_k(dd.params['min_delta'], fb), int(dd.params['min_npix']),
+                                        impl.to_k(dd.params['min_delta'], fb), impl.npix_param(dd.params['min_npix']),
                                         ','.join(str(x) for x in oo['lmap']) or '-')
     try:
         ans = dict(l.split(' ', 1) for l in session.driver().ask('eq a=%s b=%s' % (view(d1, o1, case), view(d2, o2, c2))))
